@@ -1,0 +1,9 @@
+//go:build verif
+
+// Contracts for the gowp verifier (/verif): comment-only file, compiled only with -tags verif.
+package service
+
+//@ type service.Settings
+//@   field logger nullable
+//@   field cAddr nullable
+//@   field sname nullable
